@@ -1455,7 +1455,7 @@ class Field(SupportComplexDataType):
     def find_child_reference(self, name):
         if is_base_datatype(self.datatype, self.version):
             # create reference in case of base datatypes
-            if name == self.datatype:
+            if name.upper() == self.datatype:
                 element = {'cls': Component,
                            'name': self.datatype,
                            'ref': ('leaf', None, self.datatype, None, None, -1)}
